@@ -153,4 +153,4 @@ def body(case):
 
 
 def tests(tier):
-    return [TestSpec("modifiers", gen_case, body, {"quick": 2500, "thorough": 200000}, tape=1024)]
+    return [TestSpec("modifiers", gen_case, body, {"quick": 2500, "thorough": 200000}, tape=1024, fuzz={"thorough": 40000})]
